@@ -209,6 +209,9 @@ class Cnt:
     def __init__(self, v, t):
         self.v, self.t = v, t
 
+    def __bool__(self):
+        return self.v != 0          # falsy at zero, like the number it stands for
+
     def __add__(self, o):
         self.t.bump("add"); return Cnt(self.v + _v(o), self.t)
 
